@@ -170,9 +170,25 @@ func (core *JApiCore) setCurrentDirective(keyword string, keywordCoords directiv
 	d := directive.NewWithCallStack(de, keywordCoords, core.scannersStack.ToDirectiveIncludeTracer())
 	d.Keyword = keyword
 
+	// The ban is checked here, at the keyword, because not every directive will
+	// get into the catalog: MACRO and PASTE are removed from the directive tree
+	// before that, and a MACRO might never be pasted at all.
+	if core.isBanned(de) {
+		return d.KeywordError(directiveNotAllowed(de))
+	}
+
 	core.currentDirective = d
 
 	return nil
+}
+
+func (core *JApiCore) isBanned(de directive.Enumeration) bool {
+	_, ok := core.bannedDirectives[de]
+	return ok
+}
+
+func directiveNotAllowed(de directive.Enumeration) string {
+	return fmt.Sprintf("%s (%s)", jerr.DirectiveNotAllowed, de.String())
 }
 
 func (core *JApiCore) isScanningFinished() bool {
